@@ -11,11 +11,11 @@ Helper lemmas for Props/C18.lean and Props/C19.lean (core Lean only).
 namespace Cppcheck.Cache
 open Cppcheck.Wire
 
-variable {H S : Type} [DecidableEq H]
+variable {H S F : Type} [DecidableEq H]
 
 /-! ## 1. association list -/
 
-theorem BuildDir.get_put_self (bd : BuildDir H S) (k : Str) (e : Entry H S) : (bd.put k e).get k = some e := by
+theorem BuildDir.get_put_self (bd : BuildDir H S F) (k : Str) (e : Entry H S F) : (bd.put k e).get k = some e := by
   induction bd with
   | nil => simp [BuildDir.put, BuildDir.get]
   | cons p r ih =>
@@ -24,7 +24,7 @@ theorem BuildDir.get_put_self (bd : BuildDir H S) (k : Str) (e : Entry H S) : (b
     · simp [BuildDir.put, BuildDir.get, h]
     · simp [BuildDir.put, BuildDir.get, h, ih]
 
-theorem BuildDir.get_put_other (bd : BuildDir H S) (k k2 : Str) (e : Entry H S) (hne : k2 ≠ k) :
+theorem BuildDir.get_put_other (bd : BuildDir H S F) (k k2 : Str) (e : Entry H S F) (hne : k2 ≠ k) :
     (bd.put k e).get k2 = bd.get k2 := by
   induction bd with
   | nil =>
@@ -51,11 +51,18 @@ instance (E : Encoding) (L : List FileInput) : Decidable (KeyFaithfulOn E L) := 
   unfold KeyFaithfulOn; infer_instance
 
 /-- no suppression decision of the run depends on the macro names of a finding the analysis of `tr` produces -/
-def MacroFree (W : World H S) (vis : Finding → Bool) (tr : Tree) : Prop :=
-  ∀ i ∈ tr, ∀ f ∈ W.analyze i.view, vis f.stored = vis f
+def MacroFree (W : World H S F) (vis : Finding → Bool) (tr : Tree) : Prop :=
+  ∀ i ∈ tr, ∀ f ∈ W.analyze [] i.view, vis f.stored = vis f
 
-instance (W : World H S) (vis : Finding → Bool) (tr : Tree) : Decidable (MacroFree W vis tr) := by
+instance (W : World H S F) (vis : Finding → Bool) (tr : Tree) : Decidable (MacroFree W vis tr) := by
   unfold MacroFree; infer_instance
+
+/-- the analysis of the files of `tr` gives the same result under the return summaries `sr` as without any -/
+def SummFree (W : World H S F) (sr : SummRet) (tr : Tree) : Prop :=
+  ∀ i ∈ tr, W.analyze sr i.view = W.analyze [] i.view ∧ W.summary sr i.view = W.summary [] i.view
+
+instance [DecidableEq S] (W : World H S F) (sr : SummRet) (tr : Tree) : Decidable (SummFree W sr tr) := by
+  unfold SummFree; infer_instance
 
 /-- every listed file is looked up in the cache file files.txt lists for it, and no two files share one -/
 def MapOK (lk : LookupKind) (paths : List Str) : Prop :=
@@ -64,9 +71,13 @@ def MapOK (lk : LookupKind) (paths : List Str) : Prop :=
 instance (lk : LookupKind) (paths : List Str) : Decidable (MapOK lk paths) := by
   unfold MapOK; infer_instance
 
+/-- the cache entry is what an analysis of `i` without return summaries writes (the `.sN` part is not constrained) -/
+def Honest (W : World H S F) (i : FileInput) (e : Entry H S F) : Prop :=
+  e.hash = key W i ∧ e.findings = (W.analyze [] i.view).map Finding.stored ∧ e.summ = W.summary [] i.view
+
 /-- every cache file holds the result of a full analysis of some input of `L` -/
-def Inv (W : World H S) (L : List FileInput) (bd : BuildDir H S) : Prop :=
-  ∀ slot e, bd.get slot = some e → ∃ i ∈ L, e = entryOf W i
+def Inv (W : World H S F) (L : List FileInput) (bd : BuildDir H S F) : Prop :=
+  ∀ slot e, bd.get slot = some e → ∃ i ∈ L, Honest W i e
 
 theorem Finding.stored_stored (f : Finding) : f.stored.stored = f.stored := rfl
 
@@ -80,27 +91,30 @@ theorem filterMap_report_stored (vis : Finding → Bool) (l : List Finding) (h :
     simp only [List.map_cons, List.filterMap_cons, report, Finding.stored_stored, hf, hr]
 
 section OneRun
-variable (W : World H S) (L : List FileInput) (vis : Finding → Bool) (ft : List FtLine)
+variable (W : World H S F) (L : List FileInput) (sr : SummRet) (vis : Finding → Bool) (ft : List FtLine)
 
 theorem runFile_spec (hinj : Function.Injective W.hash) (henc : KeyFaithfulOn W.enc L)
-    (bd : BuildDir H S) (hbd : Inv W L bd) (i : FileInput) (hi : i ∈ L)
-    (hmac : ∀ f ∈ W.analyze i.view, vis f.stored = vis f) :
-    (runFile W vis ft bd i).2 = (W.analyze i.view).filterMap (report vis)
-    ∧ Inv W L (runFile W vis ft bd i).1
-    ∧ (∃ e, (runFile W vis ft bd i).1.get (cacheFile W.lk ft i.path) = some e ∧ e.summ = W.summary i.view)
-    ∧ (∀ s, s ≠ cacheFile W.lk ft i.path → (runFile W vis ft bd i).1.get s = bd.get s) := by
+    (bd : BuildDir H S F) (hbd : Inv W L bd) (i : FileInput) (hi : i ∈ L)
+    (hmac : ∀ f ∈ W.analyze [] i.view, vis f.stored = vis f)
+    (hsr : W.analyze sr i.view = W.analyze [] i.view ∧ W.summary sr i.view = W.summary [] i.view) :
+    (runFile W sr vis ft bd i).2 = (W.analyze [] i.view).filterMap (report vis)
+    ∧ Inv W L (runFile W sr vis ft bd i).1
+    ∧ (∃ e, (runFile W sr vis ft bd i).1.get (cacheFile W.lk ft i.path) = some e ∧ e.summ = W.summary [] i.view)
+    ∧ (∀ s, s ≠ cacheFile W.lk ft i.path → (runFile W sr vis ft bd i).1.get s = bd.get s) := by
+  have hhon : Honest W i (entryOf W sr i) := ⟨rfl, by simp [entryOf, hsr.1], by simp [entryOf, hsr.2]⟩
   cases hr : reuse W bd (cacheFile W.lk ft i.path) i with
   | none =>
-    have hrun : runFile W vis ft bd i
-        = (bd.put (cacheFile W.lk ft i.path) (entryOf W i), (W.analyze i.view).filterMap (report vis)) := by
+    have hrun : runFile W sr vis ft bd i
+        = (bd.put (cacheFile W.lk ft i.path) (entryOf W sr i), (W.analyze sr i.view).filterMap (report vis)) := by
       simp only [runFile, hr]
     rw [hrun]
-    refine ⟨rfl, ?_, ⟨entryOf W i, BuildDir.get_put_self _ _ _, rfl⟩, fun s hs => BuildDir.get_put_other _ _ _ _ hs⟩
+    refine ⟨by rw [hsr.1], ?_, ⟨entryOf W sr i, BuildDir.get_put_self _ _ _, hhon.2.2⟩, fun s hs => BuildDir.get_put_other _ _ _ _ hs⟩
     intro slot e hget
     by_cases hs : slot = cacheFile W.lk ft i.path
     · subst hs
       rw [BuildDir.get_put_self] at hget
-      exact ⟨i, hi, (Option.some.inj hget).symm⟩
+      cases hget
+      exact ⟨i, hi, hhon⟩
     · rw [BuildDir.get_put_other _ _ _ _ hs] at hget
       exact hbd slot e hget
   | some e =>
@@ -117,34 +131,33 @@ theorem runFile_spec (hinj : Function.Injective W.hash) (henc : KeyFaithfulOn W.
         · simp [hc] at hr
     obtain ⟨j, hj, hej⟩ := hbd _ e hget.1
     have hkey : hashInput W.enc j = hashInput W.enc i := by
-      have : W.hash (hashInput W.enc j) = W.hash (hashInput W.enc i) := by
-        have h2 := hget.2; rw [hej] at h2; exact h2
+      have : W.hash (hashInput W.enc j) = W.hash (hashInput W.enc i) := hej.1.symm.trans hget.2
       exact hinj this
     have hview : j.view = i.view := henc j hj i hi hkey
-    have hrun : runFile W vis ft bd i = (bd, e.findings.filterMap (report vis)) := by
+    have hrun : runFile W sr vis ft bd i = (bd, e.findings.filterMap (report vis)) := by
       simp only [runFile, hr]
     rw [hrun]
-    refine ⟨?_, hbd, ⟨e, hget.1, by rw [hej]; simp [entryOf, hview]⟩, fun s _ => rfl⟩
+    refine ⟨?_, hbd, ⟨e, hget.1, by rw [hej.2.2, hview]⟩, fun s _ => rfl⟩
     show e.findings.filterMap (report vis) = _
-    rw [hej]
-    simp only [entryOf, hview]
+    rw [hej.2.1, hview]
     exact filterMap_report_stored vis _ hmac
 
 theorem runFiles_spec (hinj : Function.Injective W.hash) (henc : KeyFaithfulOn W.enc L) :
-    ∀ (files : List FileInput) (bd : BuildDir H S), Inv W L bd → (∀ i ∈ files, i ∈ L) →
-      (∀ i ∈ files, ∀ f ∈ W.analyze i.view, vis f.stored = vis f) →
-      (runFiles W vis ft bd files).2 = files.map (fun i => (W.analyze i.view).filterMap (report vis))
-      ∧ Inv W L (runFiles W vis ft bd files).1
+    ∀ (files : List FileInput) (bd : BuildDir H S F), Inv W L bd → (∀ i ∈ files, i ∈ L) →
+      (∀ i ∈ files, ∀ f ∈ W.analyze [] i.view, vis f.stored = vis f) → SummFree W sr files →
+      (runFiles W sr vis ft bd files).2 = files.map (fun i => (W.analyze [] i.view).filterMap (report vis))
+      ∧ Inv W L (runFiles W sr vis ft bd files).1
       ∧ ((files.map fun i => cacheFile W.lk ft i.path).Nodup →
-          ∀ i ∈ files, ∃ e, (runFiles W vis ft bd files).1.get (cacheFile W.lk ft i.path) = some e ∧ e.summ = W.summary i.view)
-      ∧ (∀ s, (∀ i ∈ files, s ≠ cacheFile W.lk ft i.path) → (runFiles W vis ft bd files).1.get s = bd.get s) := by
+          ∀ i ∈ files, ∃ e, (runFiles W sr vis ft bd files).1.get (cacheFile W.lk ft i.path) = some e ∧ e.summ = W.summary [] i.view)
+      ∧ (∀ s, (∀ i ∈ files, s ≠ cacheFile W.lk ft i.path) → (runFiles W sr vis ft bd files).1.get s = bd.get s) := by
   intro files
   induction files with
-  | nil => intro bd hbd _ _; exact ⟨rfl, hbd, fun _ i hi => by simp at hi, fun _ _ => rfl⟩
+  | nil => intro bd hbd _ _ _; exact ⟨rfl, hbd, fun _ i hi => by simp at hi, fun _ _ => rfl⟩
   | cons i r ih =>
-    intro bd hbd hL hmac
-    obtain ⟨h1, h2, h3, h4⟩ := runFile_spec W L vis ft hinj henc bd hbd i (hL i (by simp)) (hmac i (by simp))
-    obtain ⟨g1, g2, g3, g4⟩ := ih (runFile W vis ft bd i).1 h2 (fun j hj => hL j (by simp [hj])) (fun j hj => hmac j (by simp [hj]))
+    intro bd hbd hL hmac hsr
+    obtain ⟨h1, h2, h3, h4⟩ := runFile_spec W L sr vis ft hinj henc bd hbd i (hL i (by simp)) (hmac i (by simp)) (hsr i (by simp))
+    obtain ⟨g1, g2, g3, g4⟩ := ih (runFile W sr vis ft bd i).1 h2 (fun j hj => hL j (by simp [hj])) (fun j hj => hmac j (by simp [hj]))
+      (fun j hj => hsr j (by simp [hj]))
     simp only [runFiles]
     refine ⟨by simp [h1, g1], g2, ?_, ?_⟩
     · intro hnd j hj
@@ -159,12 +172,12 @@ theorem runFiles_spec (hinj : Function.Injective W.hash) (henc : KeyFaithfulOn W
     · intro s hs
       rw [g4 s (fun k hk => hs k (by simp [hk])), h4 s (hs i (by simp))]
 
-theorem collect_spec (bd : BuildDir H S) :
+theorem collect_spec (bd : BuildDir H S F) :
     ∀ (lines : List FtLine) (files : List FileInput),
       lines.map (·.afile) = files.map (fun i => cacheFile W.lk ft i.path) →
       lines.map (·.source) = files.map (·.path) →
-      (∀ i ∈ files, ∃ e, bd.get (cacheFile W.lk ft i.path) = some e ∧ e.summ = W.summary i.view) →
-      collect bd lines = files.map fun i => (i.path, W.summary i.view) := by
+      (∀ i ∈ files, ∃ e, bd.get (cacheFile W.lk ft i.path) = some e ∧ e.summ = W.summary [] i.view) →
+      collect bd lines = files.map fun i => (i.path, W.summary [] i.view) := by
   intro lines
   induction lines with
   | nil => intro files h1 _ _; cases files with
@@ -190,50 +203,77 @@ theorem filesTxtFrom_source (seen paths : List Str) : (filesTxtFrom seen paths).
 theorem filesTxt_source (paths : List Str) : (filesTxt paths).map (·.source) = paths := filesTxtFrom_source [] paths
 
 /-- one run over a build directory of honest entries -/
-theorem runWithCache_spec (W : World H S) (L : List FileInput) (vis : Finding → Bool)
+theorem runWithCache_spec (W : World H S F) (L : List FileInput) (vis : Finding → Bool)
     (hinj : Function.Injective W.hash) (henc : KeyFaithfulOn W.enc L)
-    (bd : BuildDir H S) (hbd : Inv W L bd) (files : List FileInput) (hL : ∀ i ∈ files, i ∈ L)
-    (hmac : MacroFree W vis files) (hmap : MapOK W.lk (files.map (·.path))) :
-    (runWithCache W vis bd files).2 = runFresh W vis files ∧ Inv W L (runWithCache W vis bd files).1 := by
-  obtain ⟨g1, g2, g3, _⟩ := runFiles_spec W L vis (filesTxt (files.map (·.path))) hinj henc files bd hbd hL hmac
+    (st : BdState H S F) (hbd : Inv W L st.1) (files : List FileInput) (hL : ∀ i ∈ files, i ∈ L)
+    (hmac : MacroFree W vis files) (hsr : SummFree W (srOf W st.1 st.2) files) (hmap : MapOK W.lk (files.map (·.path))) :
+    (runWithCache W vis st files).2 = runFresh W vis files ∧ Inv W L (runWithCache W vis st files).1.1 := by
+  obtain ⟨g1, g2, g3, _⟩ := runFiles_spec W L (srOf W st.1 st.2) vis (filesTxt (files.map (·.path))) hinj henc files st.1 hbd hL hmac hsr
   have hslots : (filesTxt (files.map (·.path))).map (·.afile)
       = files.map (fun i => cacheFile W.lk (filesTxt (files.map (·.path))) i.path) := by
     rw [hmap.1, List.map_map]; rfl
   have hnd : (files.map fun i => cacheFile W.lk (filesTxt (files.map (·.path))) i.path).Nodup := hslots ▸ hmap.2
-  have hc := collect_spec W (filesTxt (files.map (·.path))) (runFiles W vis (filesTxt (files.map (·.path))) bd files).1
+  have hc := collect_spec W (filesTxt (files.map (·.path)))
+    (runFiles W (srOf W st.1 st.2) vis (filesTxt (files.map (·.path))) st.1 files).1
     (filesTxt (files.map (·.path))) files hslots (filesTxt_source _) (g3 hnd)
   refine ⟨?_, g2⟩
   simp only [runWithCache, runFresh]
   rw [g1, hc]
 
 /-- the per-file part alone needs no hypothesis on the file-to-cache-file mapping -/
-theorem runWithCache_perFile (W : World H S) (L : List FileInput) (vis : Finding → Bool)
+theorem runWithCache_perFile (W : World H S F) (L : List FileInput) (vis : Finding → Bool)
     (hinj : Function.Injective W.hash) (henc : KeyFaithfulOn W.enc L)
-    (bd : BuildDir H S) (hbd : Inv W L bd) (files : List FileInput) (hL : ∀ i ∈ files, i ∈ L)
-    (hmac : MacroFree W vis files) :
-    (runWithCache W vis bd files).2.perFile = (runFresh W vis files).perFile ∧ Inv W L (runWithCache W vis bd files).1 := by
-  obtain ⟨g1, g2, _, _⟩ := runFiles_spec W L vis (filesTxt (files.map (·.path))) hinj henc files bd hbd hL hmac
+    (st : BdState H S F) (hbd : Inv W L st.1) (files : List FileInput) (hL : ∀ i ∈ files, i ∈ L)
+    (hmac : MacroFree W vis files) (hsr : SummFree W (srOf W st.1 st.2) files) :
+    (runWithCache W vis st files).2.perFile = (runFresh W vis files).perFile ∧ Inv W L (runWithCache W vis st files).1.1 := by
+  obtain ⟨g1, g2, _, _⟩ := runFiles_spec W L (srOf W st.1 st.2) vis (filesTxt (files.map (·.path))) hinj henc files st.1 hbd hL hmac hsr
   exact ⟨by simp only [runWithCache, runFresh]; rw [g1], g2⟩
 
-theorem exec_spec (W : World H S) (L : List FileInput) (hinj : Function.Injective W.hash) (henc : KeyFaithfulOn W.enc L) :
-    ∀ (evs : List Event) (bd : BuildDir H S) (t : Tree), Inv W L bd →
+theorem exec_spec (W : World H S F) (L : List FileInput) (hinj : Function.Injective W.hash) (henc : KeyFaithfulOn W.enc L) :
+    ∀ (evs : List Event) (st : BdState H S F) (t : Tree), Inv W L st.1 →
       (∀ r ∈ runsOf t evs, (∀ i ∈ r.2, i ∈ L) ∧ MacroFree W r.1 r.2 ∧ MapOK W.lk (r.2.map (·.path))) →
-      execCached W bd t evs = execFresh W t evs := by
+      (∀ r ∈ cachedRuns W st t evs, SummFree W r.1 r.2) →
+      execCached W st t evs = execFresh W t evs := by
   intro evs
   induction evs with
-  | nil => intro _ _ _ _; rfl
+  | nil => intro _ _ _ _ _; rfl
   | cons ev r ih =>
-    intro bd t hbd h
+    intro st t hbd h hs
     cases ev with
-    | edit f => simp only [execCached, execFresh]; exact ih bd (f t) hbd (by simpa [runsOf] using h)
+    | edit f =>
+      simp only [execCached, execFresh]
+      exact ih st (f t) hbd (by simpa [runsOf] using h) (by simpa [cachedRuns] using hs)
     | run vis =>
       simp only [runsOf, List.mem_cons, forall_eq_or_imp] at h
+      simp only [cachedRuns, List.mem_cons, forall_eq_or_imp] at hs
       obtain ⟨⟨hL, hmac, hmap⟩, hrest⟩ := h
-      obtain ⟨h1, h2⟩ := runWithCache_spec W L vis hinj henc bd hbd t hL hmac hmap
+      obtain ⟨h1, h2⟩ := runWithCache_spec W L vis hinj henc st hbd t hL hmac hs.1 hmap
       simp only [execCached, execFresh]
-      rw [h1, ih _ t h2 hrest]
+      rw [h1, ih _ t h2 hrest hs.2]
 
-theorem inv_empty (W : World H S) (L : List FileInput) : Inv W L ([] : BuildDir H S) := by
+theorem exec_perFile_spec (W : World H S F) (L : List FileInput) (hinj : Function.Injective W.hash) (henc : KeyFaithfulOn W.enc L) :
+    ∀ (evs : List Event) (st : BdState H S F) (t : Tree), Inv W L st.1 →
+      (∀ r ∈ runsOf t evs, (∀ i ∈ r.2, i ∈ L) ∧ MacroFree W r.1 r.2) →
+      (∀ r ∈ cachedRuns W st t evs, SummFree W r.1 r.2) →
+      (execCached W st t evs).map (·.perFile) = (execFresh W t evs).map (·.perFile) := by
+  intro evs
+  induction evs with
+  | nil => intro _ _ _ _ _; rfl
+  | cons ev r ih =>
+    intro st t hbd h hs
+    cases ev with
+    | edit f =>
+      simp only [execCached, execFresh]
+      exact ih st (f t) hbd (by simpa [runsOf] using h) (by simpa [cachedRuns] using hs)
+    | run vis =>
+      simp only [runsOf, List.mem_cons, forall_eq_or_imp] at h
+      simp only [cachedRuns, List.mem_cons, forall_eq_or_imp] at hs
+      obtain ⟨⟨hL, hmac⟩, hrest⟩ := h
+      obtain ⟨h1, h2⟩ := runWithCache_perFile W L vis hinj henc st hbd t hL hmac hs.1
+      simp only [execCached, execFresh, List.map_cons]
+      rw [h1, ih _ t h2 hrest hs.2]
+
+theorem inv_empty (W : World H S F) (L : List FileInput) : Inv W L ([] : BuildDir H S F) := by
   intro slot e h; simp [BuildDir.get] at h
 
 /-! ## 3. unique decodability of `Encoding.fixed` -/
